@@ -73,6 +73,7 @@ type Node struct {
 	Extras  []string
 	Barrier int
 	BGroup  string // name of a parameter whose value is passed as rendezvous group
+	Prefix  string // text put in front of the command, e.g. "false |" (a pipeline)
 	PadTo   int
 	Rec     bool // a pass-through recorder is attached to every out-port edge
 	// components
